@@ -10,6 +10,12 @@ LEVEL = {
  "C04": ("model_checking", "TLC: accounting identity, lifetime (leaves exactly when the clock passes t0+ttl), fills only to resting non-terminal orders, on every reachable state; on recorded histories the identity is closed with the volumes REPORTED by the code (cancel/expiry records, Order.volume held by the submitter), expiry sets are compared at every tick and negative scenarios (resubmission, foreign market) must be rejected.", "5 C04"),
  "C08": ("model_checking", "TLC: the market-price / mid / statistics state machine transcribed from market.py satisfies the sentences of C08 as action properties (C08Step, StatsInv) on every step of the bounded model incl. switches of the running flag; on recorded histories every getter-visible quantity (best prices, depth, mid, last, market price, volume, turnover, counts, VWAP) is compared after every event.", "5 C08"),
  "C19": ("model_checking", "TLC checks the C19 lemmas on the whole tick grid (TableTick: 12288 cases) and in PamsMarket (C19Step); the same grid is driven through the real Market._add_order and every accepted price is judged by the C19 clauses in TraceBook (exact for dyadic ticks; rational side conditions with the ulp slack the property grants for decimal ticks).", "5 C19"),
+ "C05": ("model_checking", "PamsRunner (TLC, all schedules of a bounded population incl. self-trades): conservation and holdings-only-by-fills invariants. TraceLedger (TLC) folds the endowment with the fills reported by the real matching rounds and compares it with EVERY snapshot of all holdings taken by the probes (after _update_agents_for_execution, in every callback, at every step end) on recorded runs of the real SequentialRunner over random configurations.", "5 C05"),
+ "C06": ("model_checking", "PamsRunner: LockStep, IndexAfterComponents, ClockIsStepCount, SkewAtMostOne on every reachable state; PamsMarket: HistoryImmutable, ClockStep. TraceClock validates all market clocks at every step begin/end record, clock step and session boundary of recorded runs (incl. runs crossing the 100-step chunks); TraceBook checks on the same runs that the eight series of past times never change (interned rows, prefix check) and that queries for the future are refused for all 17 accessors.", "5 C06"),
+ "C09": ("model_checking", "PamsRunner explores every schedule (activation orders, batch orders, gate draws, agent programs) of a bounded population and session list and checks the sentences of C09 as invariants / action properties; TraceSched evaluates the same sentences on recorded runs (placement / execution switches, at-most-once, caps, rate 0 / 1, completeness of collection) and TraceBook the behavioural round-follows clause on the per-market books.", "5 C09"),
+ "C10": ("model_checking", "PamsRunner: logger queue invariants (exactly once, in order, flushed at boundaries). TraceLog builds the ground truth of accepted orders / cancels / fills / expiries from the market probes and requires the deliveries to a recording Logger to be exactly that sequence (expiries of one step in any order), with equal fields, complete at every session boundary, step records synchronous.", "5 C10"),
+ "C11": ("model_checking", "TraceLedger keeps the bag of callbacks owed (owner per accepted order / cancel; buyer and seller per fill) and checks every callback observed in scripted agents against it, after holdings of the whole round (callback snapshot = post-round ledger); the bag must be empty at the end. PamsRunner supplies the schedules (self-trades, many fills) exhaustively for small populations.", "5 C11"),
+ "C13": ("model_checking", "TraceHooks derives, from the EventHook objects actually registered, the calls each occurrence (order / cancel before+after, fill, session before+after, market step before+after) owes and requires the recorded calls of probe events to be exactly those - times, class / instance filters, before-hooks before the effect, alterations by before-hooks taking effect.", "5 C13"),
 }
 NOTE = {
  "C01": "Trusted: TLC, the Json module, the probes (harness/book_session.py) that project floats to integer units exactly (dyadic ticks) or by rounding (decimal ticks). Bounds: design model constants in spec/MC_PamsMarket_*.cfg; histories of 30-120 operations.",
@@ -22,6 +28,12 @@ TECH = {
  "C04": "TLA+ accounting/lifetime invariants (TLC exhaustive) + TLC trace validation with reported volumes and negative scenarios",
  "C08": "TLA+ action properties on the price/statistics state machine (TLC) + TLC trace validation of every getter after every event",
  "C19": "TLA+ decision table over the tick grid (TLC) replayed into Market._add_order + TLC trace validation",
+ "C05": "TLA+ ledger fold validated by TLC on recorded runs + TLC exploration of all schedules (PamsRunner)",
+ "C06": "TLA+ clock/history invariants (TLC) + TLC trace validation of clocks, history prefixes and future probes on recorded runs",
+ "C09": "TLA+ scheduler model (TLC, all schedules) + TLC trace validation of recorded consultations, acceptances and rounds",
+ "C10": "TLA+ logger-queue model (TLC) + TLC trace validation of deliveries against ground truth from market probes",
+ "C11": "TLA+ owed-callback bag validated by TLC on recorded runs with scripted agents",
+ "C13": "TLA+ hook-selection rule validated by TLC against recorded calls of probe events",
 }
 
 def main():
@@ -49,6 +61,8 @@ def main():
                   "baseline_off_cmd": "cd /repo && /venv/bin/python -m pytest -ra -q -p no:cacheprovider --timeout=900 --continue-on-collection-errors",
                   "source_commits": [], "add_only": True},
         "engines": [
+            {"name": "tlc-run", "path": "/verif/spec/PamsRunner.tla", "serves_properties": [p for p in sorted(GROUP_OF) if GROUP_OF[p] == "run"],
+             "kind_free_text": "TLA+ run-level specification (PamsRunner, PamsLedger) checked by TLC; TraceLedger / TraceSched / TraceLog / TraceHooks / TraceClock / TraceBook validate runs of the real SequentialRunner recorded through probe subclasses"},
             {"name": "tlc-book", "path": "/verif/spec/PamsMarket.tla", "serves_properties": [p for p in sorted(GROUP_OF) if GROUP_OF[p] == "book"],
              "kind_free_text": "TLA+ specification of one market (PamsOrder, PamsBook, PamsMarketOps, PamsMarket) checked by TLC; TraceBook/TraceCmp validate executions of the real pams.market.Market; TLC -simulate behaviours are replayed into the code"},
         ],
